@@ -194,6 +194,13 @@ def inline_body(facts, key, opaque):
                     done.append(target)
                     progress = True
                     break
+            if path in STD_MODELS and not t["dest"]["proj"]:
+                cj = STD_MODELS[path](blocks[b].get("span"))
+                if cj["arg_count"] == len(t["args"]):
+                    _splice(blocks, locals_, b, cj, t["args"], istack, "std-model:" + path.split("::")[-1])
+                    done.append("std-model:" + path)
+                    progress = True
+                    break
             if path == "std::iter::Iterator::try_for_each" and len(t["args"]) == 2 and len(ce.get("args", [])) >= 3:
                 # generic arguments: [Self, F, R]
                 ret_ty = ce["args"][2]
@@ -221,6 +228,16 @@ def inline_body(facts, key, opaque):
                         continue
                     _splice(blocks, locals_, b, cj, ops, istack, f[1])
                     done.append(f[1])
+                    progress = True
+                    break
+                if f[0] == "fn" and tup["o"] in ("copy", "move") and f[1].split("::")[-1] in CTOR_FNS and not tup["place"]["proj"] and not t["dest"]["proj"] and t.get("target") is not None:
+                    # `.map(Some)` / `.map(Ok)`: the tuple-variant constructor used as a function is the aggregate
+                    en, var, idx = CTOR_FNS[f[1].split("::")[-1]]
+                    pl = copy.deepcopy(tup["place"])
+                    pl["proj"] = pl["proj"] + [{"p": "field", "i": 0, "name": "0"}]
+                    blocks[b]["stmts"].append({"s": "assign", "place": copy.deepcopy(t["dest"]), "rv": {"r": "aggregate", "ak": "adt", "path": en, "variant": var, "variant_idx": idx, "args": [], "fields": ["0"], "ops": [{"o": "move", "place": pl}]}, "inl": True})
+                    blocks[b]["term"] = {"t": "goto", "target": t["target"]}
+                    rewritten += 1
                     progress = True
                     break
                 if f[0] == "fn" and tup["o"] in ("copy", "move"):
@@ -286,6 +303,207 @@ def model_try_for_each(iter_ty, clo_ty, ret_ty, span):
         B([], {"t": "unreachable"}),
     ]
     return {"kind": "fn", "arg_count": 2, "locals": locals_, "blocks": blocks, "span": span, "debug": []}
+
+
+# ---------------------------------------------------------------------------------------------------------------------
+# MIR models of the Option / Result / bool combinators (rust-src core/src/option.rs, result.rs, bool.rs: each is a
+# `match` on self; the definitions are quoted next to the models).  With them a combinator chain and the `match` it
+# abbreviates have the same inlined normal form.
+OPT = ["None", "Some"]
+RES = ["Ok", "Err"]
+
+
+class _MB:
+    """tiny builder for model bodies: locals are numbered in creation order, _0 is the return place, _1.. the arguments"""
+
+    def __init__(self, nargs, span):
+        self.span = span
+        self.locals = [{"ty": "?", "mut": True, "model": True} for _ in range(nargs + 1)]
+        self.blocks = []
+        self.nargs = nargs
+
+    def local(self, ty="?"):
+        self.locals.append({"ty": ty, "mut": True, "model": True})
+        return len(self.locals) - 1
+
+    def block(self):
+        self.blocks.append({"stmts": [], "term": {"t": "unreachable"}, "cleanup": False, "span": self.span, "model": True})
+        return len(self.blocks) - 1
+
+    def assign(self, b, place, rv):
+        self.blocks[b]["stmts"].append({"s": "assign", "place": place, "rv": rv, "line": (self.span or {}).get("line"), "model": True})
+
+    def use(self, b, dst, op):
+        self.assign(b, _pl(dst), {"r": "use", "op": op})
+
+    def agg(self, b, dst, path, variant, idx, ops):
+        self.assign(b, _pl(dst), {"r": "aggregate", "ak": "adt", "path": path, "variant": variant, "variant_idx": idx, "args": [], "fields": [str(i) for i in range(len(ops))], "ops": ops})
+
+    def switch_variant(self, b, src, enum, variants):
+        """ends block b with a switch on the discriminant of local src; returns the new blocks for each variant"""
+        d = self.local("isize")
+        self.assign(b, _pl(d), {"r": "discr", "place": _pl(src), "ety": enum, "enum": enum, "variants": variants, "discrs": list(range(len(variants)))})
+        tg = [self.block() for _ in variants]
+        dead = self.block()
+        self.blocks[b]["term"] = {"t": "switch", "discr": _mv(d), "discr_ty": "isize", "arms": [[i, t] for i, t in enumerate(tg)], "otherwise": dead}
+        return tg
+
+    def switch_bool(self, b, src):
+        t_, f_ = self.block(), self.block()
+        self.blocks[b]["term"] = {"t": "switch", "discr": {"o": "copy", "place": _pl(src)}, "discr_ty": "bool", "arms": [[0, f_]], "otherwise": t_}
+        return t_, f_
+
+    def payload(self, b, src, variant, idx):
+        x = self.local()
+        self.use(b, x, _mv(src, {"p": "downcast", "name": variant, "i": idx}, {"p": "field", "i": 0, "name": "0"}))
+        return x
+
+    def call_fn(self, b, f, args, dst, kind="std::ops::FnOnce::call_once"):
+        """dst = f(args...) through the Fn* trait call, continuing in a new block which is returned"""
+        t = self.local("(..)")
+        self.assign(b, _pl(t), {"r": "aggregate", "ak": "tuple", "ops": [_mv(a) for a in args]})
+        nb = self.block()
+        self.blocks[b]["term"] = _call(kind, [_mv(f), _mv(t)], dst, nb, kind.rsplit("::", 1)[0], kind.rsplit("::", 1)[1])
+        return nb
+
+    def ret(self, b):
+        self.blocks[b]["term"] = {"t": "return"}
+
+    def body(self):
+        return {"kind": "fn", "arg_count": self.nargs, "locals": self.locals, "blocks": self.blocks, "span": self.span, "debug": []}
+
+
+def _m_option_map(span):          # match self { Some(x) => Some(f(x)), None => None }
+    m = _MB(2, span); b = m.block(); none, some = m.switch_variant(b, 1, "std::option::Option", OPT)
+    m.agg(none, 0, "std::option::Option", "None", 0, []); m.ret(none)
+    x = m.payload(some, 1, "Some", 1); r = m.local(); nb = m.call_fn(some, 2, [x], r)
+    m.agg(nb, 0, "std::option::Option", "Some", 1, [_mv(r)]); m.ret(nb)
+    return m.body()
+
+
+def _m_option_and_then(span):     # match self { Some(x) => f(x), None => None }
+    m = _MB(2, span); b = m.block(); none, some = m.switch_variant(b, 1, "std::option::Option", OPT)
+    m.agg(none, 0, "std::option::Option", "None", 0, []); m.ret(none)
+    x = m.payload(some, 1, "Some", 1); nb = m.call_fn(some, 2, [x], 0); m.ret(nb)
+    return m.body()
+
+
+def _m_option_map_or(span):       # match self { Some(t) => f(t), None => default }
+    m = _MB(3, span); b = m.block(); none, some = m.switch_variant(b, 1, "std::option::Option", OPT)
+    m.use(none, 0, _mv(2)); m.ret(none)
+    x = m.payload(some, 1, "Some", 1); nb = m.call_fn(some, 3, [x], 0); m.ret(nb)
+    return m.body()
+
+
+def _m_option_map_or_else(span):  # match self { Some(t) => f(t), None => default() }
+    m = _MB(3, span); b = m.block(); none, some = m.switch_variant(b, 1, "std::option::Option", OPT)
+    nb0 = m.call_fn(none, 2, [], 0); m.ret(nb0)
+    x = m.payload(some, 1, "Some", 1); nb = m.call_fn(some, 3, [x], 0); m.ret(nb)
+    return m.body()
+
+
+def _m_option_ok_or(span):        # match self { Some(v) => Ok(v), None => Err(err) }
+    m = _MB(2, span); b = m.block(); none, some = m.switch_variant(b, 1, "std::option::Option", OPT)
+    m.agg(none, 0, "std::result::Result", "Err", 1, [_mv(2)]); m.ret(none)
+    x = m.payload(some, 1, "Some", 1); m.agg(some, 0, "std::result::Result", "Ok", 0, [_mv(x)]); m.ret(some)
+    return m.body()
+
+
+def _m_option_ok_or_else(span):   # match self { Some(v) => Ok(v), None => Err(err()) }
+    m = _MB(2, span); b = m.block(); none, some = m.switch_variant(b, 1, "std::option::Option", OPT)
+    e = m.local(); nb = m.call_fn(none, 2, [], e); m.agg(nb, 0, "std::result::Result", "Err", 1, [_mv(e)]); m.ret(nb)
+    x = m.payload(some, 1, "Some", 1); m.agg(some, 0, "std::result::Result", "Ok", 0, [_mv(x)]); m.ret(some)
+    return m.body()
+
+
+def _m_option_unwrap_or(span):    # match self { Some(x) => x, None => default }
+    m = _MB(2, span); b = m.block(); none, some = m.switch_variant(b, 1, "std::option::Option", OPT)
+    m.use(none, 0, _mv(2)); m.ret(none)
+    x = m.payload(some, 1, "Some", 1); m.use(some, 0, _mv(x)); m.ret(some)
+    return m.body()
+
+
+def _m_option_is_some_and(span):  # match self { None => false, Some(x) => f(x) }
+    m = _MB(2, span); b = m.block(); none, some = m.switch_variant(b, 1, "std::option::Option", OPT)
+    m.use(none, 0, {"o": "const", "c": {"ty": "bool", "k": "val", "v": False}}); m.ret(none)
+    x = m.payload(some, 1, "Some", 1); nb = m.call_fn(some, 2, [x], 0); m.ret(nb)
+    m.locals[0]["ty"] = "bool"
+    return m.body()
+
+
+def _m_option_transpose(span):    # Some(Ok(x)) => Ok(Some(x)), Some(Err(e)) => Err(e), None => Ok(None)
+    m = _MB(1, span); b = m.block(); none, some = m.switch_variant(b, 1, "std::option::Option", OPT)
+    n = m.local(); m.agg(none, n, "std::option::Option", "None", 0, []); m.agg(none, 0, "std::result::Result", "Ok", 0, [_mv(n)]); m.ret(none)
+    r = m.payload(some, 1, "Some", 1); ok, err = m.switch_variant(some, r, "std::result::Result", RES)
+    x = m.payload(ok, r, "Ok", 0); sx = m.local(); m.agg(ok, sx, "std::option::Option", "Some", 1, [_mv(x)]); m.agg(ok, 0, "std::result::Result", "Ok", 0, [_mv(sx)]); m.ret(ok)
+    e = m.payload(err, r, "Err", 1); m.agg(err, 0, "std::result::Result", "Err", 1, [_mv(e)]); m.ret(err)
+    return m.body()
+
+
+def _m_result_map(span):          # match self { Ok(t) => Ok(op(t)), Err(e) => Err(e) }
+    m = _MB(2, span); b = m.block(); ok, err = m.switch_variant(b, 1, "std::result::Result", RES)
+    x = m.payload(ok, 1, "Ok", 0); r = m.local(); nb = m.call_fn(ok, 2, [x], r); m.agg(nb, 0, "std::result::Result", "Ok", 0, [_mv(r)]); m.ret(nb)
+    e = m.payload(err, 1, "Err", 1); m.agg(err, 0, "std::result::Result", "Err", 1, [_mv(e)]); m.ret(err)
+    return m.body()
+
+
+def _m_result_map_err(span):      # match self { Ok(t) => Ok(t), Err(e) => Err(op(e)) }
+    m = _MB(2, span); b = m.block(); ok, err = m.switch_variant(b, 1, "std::result::Result", RES)
+    x = m.payload(ok, 1, "Ok", 0); m.agg(ok, 0, "std::result::Result", "Ok", 0, [_mv(x)]); m.ret(ok)
+    e = m.payload(err, 1, "Err", 1); r = m.local(); nb = m.call_fn(err, 2, [e], r); m.agg(nb, 0, "std::result::Result", "Err", 1, [_mv(r)]); m.ret(nb)
+    return m.body()
+
+
+def _m_result_ok(span):           # match self { Ok(x) => Some(x), Err(_) => None }
+    m = _MB(1, span); b = m.block(); ok, err = m.switch_variant(b, 1, "std::result::Result", RES)
+    x = m.payload(ok, 1, "Ok", 0); m.agg(ok, 0, "std::option::Option", "Some", 1, [_mv(x)]); m.ret(ok)
+    m.agg(err, 0, "std::option::Option", "None", 0, []); m.ret(err)
+    return m.body()
+
+
+def _m_result_and_then(span):     # match self { Ok(t) => op(t), Err(e) => Err(e) }
+    m = _MB(2, span); b = m.block(); ok, err = m.switch_variant(b, 1, "std::result::Result", RES)
+    x = m.payload(ok, 1, "Ok", 0); nb = m.call_fn(ok, 2, [x], 0); m.ret(nb)
+    e = m.payload(err, 1, "Err", 1); m.agg(err, 0, "std::result::Result", "Err", 1, [_mv(e)]); m.ret(err)
+    return m.body()
+
+
+def _m_bool_then_some(span):      # if self { Some(t) } else { None }
+    m = _MB(2, span); b = m.block(); t_, f_ = m.switch_bool(b, 1)
+    m.agg(t_, 0, "std::option::Option", "Some", 1, [_mv(2)]); m.ret(t_)
+    m.agg(f_, 0, "std::option::Option", "None", 0, []); m.ret(f_)
+    m.locals[1]["ty"] = "bool"
+    return m.body()
+
+
+def _m_bool_then(span):           # if self { Some(f()) } else { None }
+    m = _MB(2, span); b = m.block(); t_, f_ = m.switch_bool(b, 1)
+    r = m.local(); nb = m.call_fn(t_, 2, [], r); m.agg(nb, 0, "std::option::Option", "Some", 1, [_mv(r)]); m.ret(nb)
+    m.agg(f_, 0, "std::option::Option", "None", 0, []); m.ret(f_)
+    m.locals[1]["ty"] = "bool"
+    return m.body()
+
+
+STD_MODELS = {
+    "std::option::Option::<T>::map": _m_option_map,
+    "std::option::Option::<T>::and_then": _m_option_and_then,
+    "std::option::Option::<T>::map_or": _m_option_map_or,
+    "std::option::Option::<T>::map_or_else": _m_option_map_or_else,
+    "std::option::Option::<T>::ok_or": _m_option_ok_or,
+    "std::option::Option::<T>::ok_or_else": _m_option_ok_or_else,
+    "std::option::Option::<T>::unwrap_or": _m_option_unwrap_or,
+    "std::option::Option::<T>::is_some_and": _m_option_is_some_and,
+    "std::option::Option::<std::result::Result<T, E>>::transpose": _m_option_transpose,
+    "std::result::Result::<T, E>::map": _m_result_map,
+    "std::result::Result::<T, E>::map_err": _m_result_map_err,
+    "std::result::Result::<T, E>::ok": _m_result_ok,
+    "std::result::Result::<T, E>::and_then": _m_result_and_then,
+    "core::bool::<impl bool>::then_some": _m_bool_then_some,
+    "core::bool::<impl bool>::then": _m_bool_then,
+    "std::bool::<impl bool>::then_some": _m_bool_then_some,
+    "std::bool::<impl bool>::then": _m_bool_then,
+}
+CTOR_FNS = {"Some": ("std::option::Option", "Some", 1), "Ok": ("std::result::Result", "Ok", 0), "Err": ("std::result::Result", "Err", 1)}
 
 
 def _tuple_arity(ty):
